@@ -221,6 +221,15 @@ def gen_text(rng):
         else:
             body = "<i>x</i> " * (n // 8) + '"' * (n % 8)
         return "long text with hundreds of specials", body
+    if c < 0.6615:
+        # very long texts (a whole embedded document): specials exactly at the edges of power-of-two sized
+        # windows and at the very end - where block-wise processing has its seams
+        n = rng.choice((65536, 65537, 70000, 131072, 131073, 200000))
+        body = ["a"] * n
+        for pos in (65535, 65536, 131071, 131072, n - 1, n - 2, 0, rng.randrange(n)):
+            if pos < n:
+                body[pos] = rng.choice(SPECIALS)
+        return "very long text (65536+ characters) with specials at window edges", "".join(body)
     return "mixed unicode", "".join(gen_char(rng) for _ in range(rng.randint(1, 30)))
 
 
@@ -387,6 +396,7 @@ def run(ctx):
                 "hour boundary", "integer seconds", "exact half second (tie)", "random float",
                 "around 10 s (milliseconds)", "minute boundary (milliseconds)"):
         ctx.need("duration:" + cls, 100)
+    ctx.need("escape:very long text (65536+ characters) with specials at window edges", 10)
     ctx.need("history: after a failed / out-of-domain call", 300)
     ctx.need("monitor:xml_escape evaluated", 10_000)
     ctx.need("monitor:read-back (content)", 10_000)
